@@ -808,6 +808,20 @@ func (f *transformationCallable) updateEntries(item reflect.Value) error {
 	// when it is an item of an array. Unwrap it to read its keys.
 	updates = jtypes.Resolve(updates)
 
+	// An update that refers to the object being updated (as in
+	// |$|{"self": $}|) would store the object inside itself: the
+	// result could not be marshalled and walking it would never
+	// end. Store a copy of what the update saw instead.
+	if reach := make(map[uintptr]bool); jtypes.IsMap(item) {
+		collectMaps(updates, reach)
+		if reach[jtypes.Resolve(item).Pointer()] {
+			if updates, err = f.clone(updates); err != nil {
+				return err
+			}
+			updates = jtypes.Resolve(updates)
+		}
+	}
+
 	for _, key := range updates.MapKeys() {
 		item.SetMapIndex(key, updates.MapIndex(key))
 	}
